@@ -1,1 +1,2 @@
+pub mod prep;
 pub mod problems;
